@@ -24,6 +24,8 @@ type SeqProfile struct {
 	PFailIns  float64 // an insert callback fails
 	PRollback float64 // a transaction ends in an error
 	PSchema   float64 // a step is a schema change
+	PObserve  float64 // the body looks at the collection from a second transaction (dump) at some point
+	SortFirst bool    // create the sorted indexes before any data
 	PDelete   float64
 	PInsert   float64
 	MaxBody   int
@@ -225,6 +227,14 @@ func RunSeq(seed int64, p SeqProfile) []Ev {
 			g.R.CreateColumn(d)
 		}
 	}
+	if p.SortFirst {
+		for _, x := range p.Sorts {
+			g.P.CreateSort(x[0], x[1])
+			if g.R != nil {
+				g.R.CreateSort(x[0], x[1])
+			}
+		}
+	}
 	g.prologue()
 	g.dump()
 	for step := 0; step < p.Steps; step++ {
@@ -240,6 +250,9 @@ func RunSeq(seed int64, p SeqProfile) []Ev {
 				x.Sel()
 			}
 			for i := 0; i < nbody; i++ {
+				if g.rnd.Float64() < p.PObserve {
+					g.P.Dump(g.rnd.Intn(3))
+				}
 				r := g.rnd.Float64()
 				switch {
 				case r < p.PInsert:
